@@ -32,6 +32,8 @@ def shapes(tier):
         S('two-tables', ['P0'], [dict(value=['L', 'P0', 'L', 'P0'], doc=None, table=None), dict(value=['L'], doc=None, table=None)], [(1, 1), (1, 2)], 1),
         S('header-only-and-no-table', ['L'], [dict(value=['P0'], doc=None, table=None)], [(1, 0), None, (1, 1)], 1),
         S('no-examples', ['L', 'P0'], [dict(value=['P0'], doc=None, table=None)], [], 1),
+        # two tables whose headers may list the same names in a different order / only partly
+        S('two-tables-two-cols', ['P0', 'L', 'P1'], [dict(value=['P1', 'P0'], doc=None, table=None)], [(2, 1), (2, 1)], 2),
     ]
     if tier == 'thorough':
         out += [S('three-ph', ['P0', 'P1', 'P2'], [dict(value=['P2', 'L', 'P0'], doc=['P1'], table=[[['P0', 'P1']], [['P2', 'L']]])], [(2, 1), (2, 2)], 3),
